@@ -59,7 +59,12 @@ static struct v_pipe_s {
 } v_pipes[V_NPIPE];
 static int v_npipe;
 
-static struct v_ep_s { int epfd, fd; void *ptr; uint8_t used; } v_ep[V_NEP];
+/* epoll instances: at most V_EPR registrations each (own message queue + the virtual thread's epoll) */
+#define V_EPR	2
+static struct v_epoll_s {
+	struct v_reg_s { int fd; void *ptr; uint8_t used, kind, idx; } r[V_EPR];
+} v_epolls[NTHR + 1];
+static int v_nepoll;
 
 static int
 v_fd_kind(int fd) {
@@ -105,7 +110,9 @@ v_epoll_create1(int flags) {
 		errno = (0 != (IN.tp.fail_errsel & 1)) ? EMFILE : ENOMEM;
 		return (-1);
 	}
-	return (v_fd_new(FD_EPOLL, 0));
+	V_ASSERT(v_nepoll < NTHR + 1, "BUDGET epoll instances of the model");
+	int e = v_nepoll ++;
+	return (v_fd_new(FD_EPOLL, e));
 }
 
 static int
@@ -135,9 +142,11 @@ v_close(int fd) {
 	}
 	if (FD_PIPE_R == k) v_pipes[v_fdt[fd].idx].r_open = 0;
 	if (FD_PIPE_W == k) v_pipes[v_fdt[fd].idx].w_open = 0;
-	for (int i = 0; i < V_NEP; i ++) { /* the kernel drops registrations of a closed file / of a closed epoll */
-		if (v_ep[i].used && (v_ep[i].fd == fd || v_ep[i].epfd == fd))
-			v_ep[i].used = 0;
+	for (int e = 0; e < NTHR + 1; e ++) { /* the kernel drops registrations of a closed file / of a closed epoll */
+		for (int i = 0; i < V_EPR; i ++) {
+			if (v_epolls[e].r[i].used && (v_epolls[e].r[i].fd == fd || (FD_EPOLL == k && v_fdt[fd].idx == e)))
+				v_epolls[e].r[i].used = 0;
+		}
 	}
 	v_fdt[fd].kind = FD_CLOSED;
 	v_live_fds --;
@@ -149,13 +158,15 @@ v_epoll_ctl(int epfd, int op, int fd, struct epoll_event *ev) {
 	int i, at = -1, fr = -1;
 
 	env_move(EP_SYS, NULL);
-	if (FD_EPOLL != v_fd_kind(epfd) || FD_FREE == v_fd_kind(fd) || FD_CLOSED == v_fd_kind(fd) || epfd == fd) {
-		errno = (FD_EPOLL != v_fd_kind(epfd) && FD_FREE != v_fd_kind(epfd) && FD_CLOSED != v_fd_kind(epfd)) ? EINVAL : EBADF;
+	int ke = v_fd_kind(epfd), kf = v_fd_kind(fd);
+	if (FD_EPOLL != ke || FD_FREE == kf || FD_CLOSED == kf || epfd == fd) {
+		errno = (FD_FREE == ke || FD_CLOSED == ke || FD_FREE == kf || FD_CLOSED == kf) ? EBADF : EINVAL;
 		return (-1);
 	}
-	for (i = 0; i < V_NEP; i ++) {
-		if (v_ep[i].used && v_ep[i].epfd == epfd && v_ep[i].fd == fd) at = i;
-		if (!v_ep[i].used && fr < 0) fr = i;
+	struct v_epoll_s *e = &v_epolls[v_fdt[epfd].idx];
+	for (i = 0; i < V_EPR; i ++) {
+		if (e->r[i].used && e->r[i].fd == fd) at = i;
+		if (!e->r[i].used && fr < 0) fr = i;
 	}
 	switch (op) {
 	case EPOLL_CTL_ADD:
@@ -163,34 +174,36 @@ v_epoll_ctl(int epfd, int op, int fd, struct epoll_event *ev) {
 		if (v_fail()) { errno = (0 != (IN.tp.fail_errsel & 1)) ? ENOSPC : ENOMEM; return (-1); }
 		V_ASSERT(fr >= 0, "BUDGET epoll registrations of the model");
 		if (fr < 0) { errno = ENOSPC; return (-1); }
-		v_ep[fr].used = 1;
-		v_ep[fr].epfd = epfd;
-		v_ep[fr].fd = fd;
-		v_ep[fr].ptr = ev->data.ptr;
+		e->r[fr].used = 1;
+		e->r[fr].fd = fd;
+		e->r[fr].ptr = ev->data.ptr;
+		e->r[fr].kind = (uint8_t)kf;
+		e->r[fr].idx = v_fdt[fd].idx;
 		return (0);
 	case EPOLL_CTL_MOD:
 		if (at < 0) { errno = ENOENT; return (-1); }
-		v_ep[at].ptr = ev->data.ptr;
+		e->r[at].ptr = ev->data.ptr;
 		return (0);
 	case EPOLL_CTL_DEL:
 		if (at < 0) { errno = ENOENT; return (-1); }
-		v_ep[at].used = 0;
+		e->r[at].used = 0;
 		return (0);
 	}
 	errno = EINVAL;
 	return (-1);
 }
 
-/* readiness of registration slot i (one level of nesting: a pipe, or an epoll that watches pipes) */
+/* readiness of a registration (one level of nesting: a pipe, or an epoll that watches pipes) */
 static int
-v_ep_ready(int i) {
-	int k = v_fd_kind(v_ep[i].fd);
-	if (FD_PIPE_R == k)
-		return (v_pipes[v_fdt[v_ep[i].fd].idx].cnt > 0);
-	if (FD_EPOLL == k) {
-		for (int j = 0; j < V_NEP; j ++) {
-			if (v_ep[j].used && v_ep[j].epfd == v_ep[i].fd && FD_PIPE_R == v_fd_kind(v_ep[j].fd) &&
-			    v_pipes[v_fdt[v_ep[j].fd].idx].cnt > 0)
+v_reg_ready(const struct v_reg_s *r) {
+	if (!r->used)
+		return (0);
+	if (FD_PIPE_R == r->kind)
+		return (v_pipes[r->idx].cnt > 0);
+	if (FD_EPOLL == r->kind) {
+		const struct v_epoll_s *n = &v_epolls[r->idx];
+		for (int j = 0; j < V_EPR; j ++) {
+			if (n->r[j].used && FD_PIPE_R == n->r[j].kind && v_pipes[n->r[j].idx].cnt > 0)
 				return (1);
 		}
 	}
@@ -219,11 +232,12 @@ v_epoll_wait(int epfd, struct epoll_event *ev, int maxev, int timeout) {
 		}
 		v_ew_budget --;
 	}
-	for (i = 0; i < V_NEP; i ++) {
-		if (!v_ep[i].used || v_ep[i].epfd != epfd)
+	const struct v_epoll_s *e = &v_epolls[v_fdt[epfd].idx];
+	for (i = 0; i < V_EPR; i ++) {
+		if (!e->r[i].used)
 			continue;
-		int nested = (FD_EPOLL == v_fd_kind(v_ep[i].fd));
-		if (!(v_ep_ready(i) || (nested && v_ew_spurious)))
+		int nested = (FD_EPOLL == e->r[i].kind);
+		if (!(v_reg_ready(&e->r[i]) || (nested && v_ew_spurious)))
 			continue;
 		if (found < 0 || (nested == v_ew_pick && found_nested != v_ew_pick)) {
 			found = i;
@@ -236,7 +250,7 @@ v_epoll_wait(int epfd, struct epoll_event *ev, int maxev, int timeout) {
 		return (V_EW_BLOCK());
 	}
 	ev->events = EPOLLIN;
-	ev->data.ptr = v_ep[found].ptr;
+	ev->data.ptr = e->r[found].ptr;
 	v_ew_delivered ++;
 	return (1);
 }
